@@ -393,6 +393,7 @@ func main() {
 					atomic.AddInt64(&evals, 1)
 					watchBuf = append(append(append(watchBuf[:0], byte(len(old)>>24), byte(len(old)>>16), byte(len(old)>>8), byte(len(old))), old...), new...)
 					r.Watch(w, watchBuf)
+					old, new = old[:len(old):len(old)], new[:len(new):len(new)]
 					quiet.RLock()
 					vs, h := checkPair(old, new)
 					quiet.RUnlock()
